@@ -32,6 +32,8 @@ type marshalObs struct {
 	BackTextErr string `json:"backtexterr"`
 	BackBin     GV     `json:"backbin"`
 	BackBinErr  string `json:"backbinerr"`
+	// "" when the byte slices MarshalText / MarshalBinary returned are still what they were after two further Marshal calls
+	Stale string `json:"stale"`
 }
 
 func cmdMarshal(in *bufio.Scanner, out *bufio.Writer) error {
@@ -52,10 +54,18 @@ func cmdMarshal(in *bufio.Scanner, out *bufio.Writer) error {
 			o.TextErr = errString(err)
 			o.Text = append(Bytes{}, txt...)
 			txt2, _ := ion.MarshalText(pv.Interface())
-			o.Same = bytes.Equal(txt, txt2)
+			o.Same = bytes.Equal(o.Text, txt2)
 			bin, err := ion.MarshalBinary(pv.Interface())
 			o.BinErr = errString(err)
 			o.Bin = append(Bytes{}, bin...)
+			// a caller keeps what it got while it marshals something else
+			ion.MarshalText("something else, long enough to overwrite a reused buffer: 0123456789 0123456789 0123456789")
+			ion.MarshalBinary("something else, long enough to overwrite a reused buffer: 0123456789 0123456789 0123456789")
+			if !bytes.Equal(txt, o.Text) {
+				o.Stale = "the bytes MarshalText returned were changed by a later Marshal call"
+			} else if !bytes.Equal(bin, o.Bin) {
+				o.Stale = "the bytes MarshalBinary returned were changed by a later Marshal call"
+			}
 			if o.TextErr == "" {
 				back := reflect.New(t)
 				o.BackTextErr = errString(ion.Unmarshal(txt, back.Interface()))
@@ -82,6 +92,7 @@ type unmarshalCase struct {
 	Bytes  Bytes    `json:"bytes"`
 	Types  []string `json:"types"`
 	Stream bool     `json:"stream"` // decode the whole stream with Decoder.Decode until ErrNoInput
+	Trunc  bool     `json:"trunc"`  // the document is cut short: also report what a Reader says about its first value
 }
 
 type unmarshalRes struct {
@@ -99,6 +110,8 @@ type unmarshalObs struct {
 	DecErr   string `json:"decerr"`
 	NoInput  int    `json:"noinput"` // how many of the 3 calls after the last value returned ErrNoInput
 	DecPanic string `json:"decpanic"`
+	// Trunc: the error a Reader meets while reading the first value completely ("" if it reads it without error)
+	FirstErr string `json:"firsterr"`
 }
 
 func cmdUnmarshal(in *bufio.Scanner, out *bufio.Writer) error {
@@ -110,6 +123,24 @@ func cmdUnmarshal(in *bufio.Scanner, out *bufio.Writer) error {
 		}
 		idx++
 		o := unmarshalObs{Idx: idx, Res: []unmarshalRes{}, Decoded: []GV{}}
+		if c.Trunc {
+			err, pan, site := safely(func() error {
+				r := ion.NewReaderBytes([]byte(c.Bytes))
+				if !r.Next() {
+					return r.Err()
+				}
+				_, e := projectCurrent(r, 0)
+				if e == nil {
+					e = r.Err()
+				}
+				return e
+			})
+			if pan {
+				o.FirstErr = "panic at " + site
+			} else {
+				o.FirstErr = errString(err)
+			}
+		}
 		for _, tn := range c.Types {
 			t := goTypeByName(tn)
 			r := unmarshalRes{Type: tn, GV: newGV("none")}
